@@ -44,6 +44,9 @@ type Response struct {
 	headEncoded  bool
 	hasBody      bool
 	hijacked     bool
+	// the head was sent before the body length was known and the response
+	// is not chunked: the body ends when the connection is closed.
+	closeDelimited bool
 }
 
 // Hijack .
@@ -367,6 +370,11 @@ func (res *Response) Flush() {
 
 	res.WriteHeader(http.StatusOK)
 	res.checkChunked()
+	if !res.headEncoded && !res.chunked && len(res.header[contentLengthHeader]) == 0 &&
+		res.statusCode != http.StatusNoContent && res.statusCode != http.StatusNotModified {
+		res.closeDelimited = true
+		res.request.Close = true
+	}
 	res.eoncodeHead()
 
 	conn := res.Parser.Conn
@@ -456,7 +464,7 @@ func (res *Response) eoncodeHead() {
 		const contentType = "Content-Type: text/plain; charset=utf-8\r\n"
 		pdata = mempool.AppendString(pdata, contentType)
 	}
-	if !res.chunked && len(res.header[contentLengthHeader]) == 0 {
+	if !res.chunked && !res.closeDelimited && len(res.header[contentLengthHeader]) == 0 {
 		const contentLenthPrefix = "Content-Length: "
 		if !res.hasBody {
 			pdata = mempool.AppendString(pdata, contentLenthPrefix)
